@@ -426,8 +426,9 @@ def main(argv=None):
         "assumptions": list(getattr(mod, "ASSUMPTIONS", [])), "wall_s": round(wall, 2),
         "violations": len(tot["viol"]),
     }
-    os.makedirs(os.path.join(HERE, "evidence"), exist_ok=True)
-    with open(os.path.join(HERE, "evidence", f"{pid}.json"), "w") as fh:
+    evdir = os.environ.get("VERIF_EVIDENCE_DIR") or os.path.join(HERE, "evidence")   # redirected by mutant runs only
+    os.makedirs(evdir, exist_ok=True)
+    with open(os.path.join(evdir, f"{pid}.json"), "w") as fh:
         json.dump(ev, fh, indent=1, default=_json_default)
     print(f"{pid} tier={a.tier} seed={seed} evaluations={cov['evaluations']} distinct_nontrivial="
           f"{cov['distinct_nontrivial']} violations={len(tot['viol'])} known={len(tot['known'])} wall={wall:.1f}s")
